@@ -528,6 +528,7 @@ def run_history(scn):
         obefore = outside_digest(root)
         clock = scn.get("clock0", 100)
         git_off = False
+        last_root = root
         for st in scn["steps"]:
             cmd = st["cmd"]
             if cmd == "plant":
@@ -634,8 +635,9 @@ def run_history(scn):
                 head = P.git(root, "rev-parse", "HEAD", check=False) or None
                 dirty = subprocess.run(["git", "diff-index", "--quiet", "HEAD"], cwd=root).returncode != 0
             tgt_root = os.path.join(d, st["project"]) if st.get("project") else root
-            if st.get("project"):
-                before = CLI.project_store(tgt_root)
+            if st.get("project") or last_root != tgt_root:
+                before = CLI.project_store(tgt_root)       # the previous command worked on another project
+            last_root = tgt_root
             watcher = RowWatcher(tgt_root, before) if st.get("watch") else None
             # st["env"]: what `cond` finds in its OWN environment (nested use: an outer task's COND_* variables); "@root" = project
             amb = {k_: v_.replace("@root", tgt_root) for k_, v_ in (st.get("env") or {}).items()}
